@@ -133,8 +133,8 @@ CLAIMS = {
             'lc+lp <= 12 by props < 225; every explicit allocation call (vec![e; n], with_capacity, resize, reserve - extractor rule R20) '
             'carries the obligation alloc_ok(n): n <= 4 Mi elements (a constant of the format) or justified by data already held '
             '(trusted axiom_alloc_held, used for the window growing one produced byte at a time and for read_tag). Defects D2 (footer overflow) and D3 (dict_size 0) were found as failing obligations and fixed. '
-            'NOT COVERED: src/error.rs conversions, Vec2D (3 assumed contracts), Stream::{new, get_output, get_output_mut}, lzma_decompress '
-            '(one-line wrapper), allocation failure itself, and stack depth.',
+            'The .lzma encoder path (from_stream, process over the verified BytesShim stand-in, encode_literal, finish, lzma_compress*) is covered as well. '
+            'NOT COVERED: src/error.rs conversions, From<CheckMethod> for u8, Vec2D (3 assumed contracts), allocation failure itself, and stack depth.',
             'Verus safety obligations (overflow, bounds, termination, invariants) on mechanically extracted real code', '5 C07'),
     'C12': (True,
             'Unbounded deductive proof (Verus) against an adversarial I/O model (ExWrite: write may accept any prefix or fail at any call, flush may '
@@ -144,7 +144,8 @@ CLAIMS = {
             'turned into Ok because Ok carries the exact-output postcondition. Encoders (LZMA2, XZ): Ok => the sink received exactly the encoding '
             '(for sinks that accept only part of each write, through the write_all contract), counters count bytes actually accepted '
             '(CountWrite/CrcDigestWrite), output only grows. Defect D4 (StreamFlags::serialize used write, not write_all) was found and fixed. '
-            'NOT COVERED: lzma_compress (dumbencoder / RangeEncoder not under contract); the prefix-on-error statement is proved per window '
+            'lzma_compress*: what the sink accepted only grows on every exit (ENC.lzma.prefix, API.lzma.enc.prefix), header first on Ok; that the '
+            'range-coded payload is complete is not proved (duality gap, see C04). The prefix-on-error statement is proved per window '
             'operation and loop, not restated on the top-level decompress functions (finish() consumes the window on its error path).',
             'Verus contracts over an under-specified (failing, short-writing) sink and source model', '5 C12'),
     'C04': (True,
@@ -156,9 +157,10 @@ CLAIMS = {
             'to be read back by the decoder header parser with the same parameters for each size option (lemma_lzma_header_roundtrip); the '
             'range encoder is verified against its carry invariant (RangeEncoder::wf / re_fits: a carry out of `low` is always absorbed by '
             'the cached byte, the interval top never exceeds what the pending bytes can represent; write_low, normalize, encode_bit, finish, '
-            'encode_literal, Encoder::finish all preserve it and are overflow-free). NOT PROVED: that the spec decoder reads the encoded bits '
-            'back from the bytes written (range-coder duality), Encoder::process (io::Bytes iterator, outside the verifier subset) and the '
-            'two lzma_compress entry points; interoperability with an independent decoder is represented by the format spec functions, not '
+            'encode_literal, Encoder::finish, the literal loop Encoder::process (for over bytes().enumerate() desugared over a verified stand-in, rule R22) '
+            'and the two lzma_compress entry points all preserve it and are overflow-free; the encoder mirrors the decoder interval and probability '
+            'arithmetic bit for bit, RE.bit.mirror). NOT PROVED: that the spec decoder reads the encoded bits '
+            'back from the bytes written (the value argument of range-coder duality); interoperability with an independent decoder is represented by the format spec functions, not '
             'by running liblzma.',
             'Verus encoder contracts + spec-level round-trip lemmas', '5 C04'),
 }
